@@ -21,7 +21,8 @@ from vlib import Check, Broken, log
 
 ALL_OPS = ["krig_u", "krig_m", "krig_mb", "neigh_u", "neigh_m", "neigh_mb", "xvalid_u", "xvalid_m", "vario", "vario_cov", "stat",
            "stat_iso", "cov", "cov_sym", "drift", "simtub", "simtub_pt", "simtub_exp", "migrate", "migrate_ball", "migrate_grid",
-           "migrate_fill", "reduce"]
+           "migrate_fill", "reduce", "cov_req", "cov_sym_req", "drift_req", "ranks_req", "krig_on", "simtub_on",
+           "simtub_on_grid"]
 F_OPS = ["krig_u", "krig_m", "krig_mb", "neigh_u", "neigh_m", "xvalid_u", "xvalid_m", "drift"]
 V_OPS = ["krig_u", "krig_m", "xvalid_u", "cov_sym", "drift"]
 T_OPS = ["t_krig_u", "t_krig_m", "t_simtub", "t_simtub_grid", "t_simtub_nc", "t_migrate", "t_migrate_ball"]
@@ -49,6 +50,9 @@ TIERS = {
 }
 FEATS = ["sel_off", "coord_na", "zall_na", "hetero", "f_na", "v_na", "odd_sel", "none_usable", "clean"]
 Z1 = [2.5, -1.25, 4.75, 0.5]
+Z2 = [10.5, 13.25, 9.0, 11.75]
+REQ_MATS = {"cov_req": 5, "cov_sym_req": 2, "drift_req": 1}     # matrices written per request by mask_run
+GEOM = {}
 TOL_KRIG = 1e-9
 TOL_SUM = 1e-12
 
@@ -63,7 +67,7 @@ def cfg_text(name, maxn, invariants=True):
          "  HasF = %s\n  HasV = %s\n  RunOps = {%s}\n  EmitMin = 1\n" %
          (maxn, nvar, sel, c, f, v, tla_bool(hf), tla_bool(hv), ", ".join('"%s"' % o for o in ops)))
     if invariants:
-        t += "INVARIANT ModelImplementsReduce ReduceIsSound ReduceExtremes\n"
+        t += "INVARIANT ModelImplementsReduce ReduceIsSound ReduceVarIsSound ReduceExtremes\n"
     t += "CONSTRAINT Emit\nCHECK_DEADLOCK FALSE\n"
     return t
 
@@ -198,7 +202,7 @@ class Comparer:
             return None if M["i"] == R["i"] and M["st"] == R["st"] else "selected samples differ"
         if R["st"] == "empty":
             # nothing usable: the masked run must fail or return nothing but undefined values / empty matrices
-            if op in ("simtub", "simtub_pt", "simtub_exp"):
+            if op in ("simtub", "simtub_pt", "simtub_exp", "simtub_on", "simtub_on_grid"):
                 return None          # no promise without any conditioning datum
             if op in ("cov", "cov_sym", "drift"):
                 mats, _ = split_matrices(M)
@@ -230,6 +234,56 @@ class Comparer:
             return None if vec_close(M["v"], R["v"], TOL_SUM) else "hh / gg differ"
         if op in ("cov", "cov_sym", "drift"):
             return None if M["i"] == R["i"] and vec_close(M["v"], R["v"], TOL_SUM) else "matrix differs"
+        if op in REQ_MATS:
+            # request by request; a request without any usable row has no reduced Db (marker -1 -1): the masked
+            # run must then have no row either (checked against the expected number of rows, spec form)
+            per = REQ_MATS[op]
+            mm, _ = split_matrices(M)
+            pos_i, pos_v, k = 0, 0, 0
+            while pos_i < len(R["i"]):
+                if R["i"][pos_i] == -1:
+                    pos_i += 2
+                else:
+                    for q in range(per):
+                        nr, nc = R["i"][pos_i], R["i"][pos_i + 1]
+                        vals = R["v"][pos_v:pos_v + nr * nc]
+                        pos_i += 2
+                        pos_v += nr * nc
+                        if k * per + q >= len(mm):
+                            return "missing matrix"
+                        mr, mc, mv = mm[k * per + q]
+                        if (mr, mc) != (nr, nc) or not vec_close(mv, vals, TOL_SUM):
+                            return "request %d, matrix %d differs from the Db reduced for that variable" % (k + 1, q + 1)
+                k += 1
+            return None
+        if op == "ranks_req":
+            def blocks(res):
+                out, cur = [], []
+                for x in res["i"]:
+                    if x == -2:
+                        out.append(cur)
+                        cur = []
+                    else:
+                        cur.append(x)
+                return out
+            bm, br = blocks(M), blocks(R)
+            if len(bm) != len(br):
+                return "number of requests differs"
+            pm = pr = 0
+            for k, (x, y) in enumerate(zip(bm, br)):
+                nm = int(M["v"][pm] or 0)
+                vm = M["v"][pm + 1:pm + 1 + nm]
+                pm += 1 + nm
+                if y == [-3]:
+                    if [q for q in x if q != -1]:
+                        return "request %d returns samples although none is usable" % (k + 1)
+                    continue
+                nr_ = int(R["v"][pr] or 0)
+                vr = R["v"][pr + 1:pr + 1 + nr_]
+                pr += 1 + nr_
+                if x != y or vm != vr:
+                    return "request %d: ranks / values differ from the reduced Db" % (k + 1)
+            return None
         if op in ("stat", "stat_iso"):
             return None if M["i"] == R["i"] and vec_close(M["v"], R["v"], TOL_SUM) else "statistics differ"
         if op in ("migrate", "migrate_ball", "migrate_grid", "migrate_fill"):
@@ -261,6 +315,53 @@ class Comparer:
                 got = M["v"][w * 6]
                 if got != want:
                     return "count of variable %d is %r, expected %d" % (w + 1, got, want)
+            return None
+        if op in REQ_MATS:
+            mats, _ = split_matrices(M)
+            per = REQ_MATS[op]
+            if len(mats) != per * len(decl):
+                return "%d matrices for %d requests" % (len(mats), len(decl))
+            for k, want in enumerate(decl):
+                if mats[k * per][0] != len(want):
+                    return "request %d: %d rows, expected %d" % (k + 1, mats[k * per][0], len(want))
+            return None
+        if op == "ranks_req":
+            # per request: identities per requested variable (-1 after each), -2 after the request; values counted
+            got, cur = [], []
+            for x in M["i"]:
+                if x == -2:
+                    got.append(cur)
+                    cur = []
+                elif x != -1:
+                    cur.append(x)
+            want = [[d[0] for d in req] for req in decl]
+            if got != want:
+                return "samples per request %r, expected %r" % (got, want)
+            pos = 0
+            for req in decl:
+                nval = M["v"][pos]
+                vals = M["v"][pos + 1:pos + 1 + int(nval or 0)]
+                exp = [(Z1 if d[1] == 1 else Z2)[d[0] - 1] for d in req]
+                if vals != exp:
+                    return "values %r, expected %r" % (vals, exp)
+                pos += 1 + len(vals)
+            return None
+        if op in ("simtub_on", "simtub_on_grid"):
+            # the target lying on a USABLE datum holds that datum in every simulation (and only then is it promised)
+            if M["st"] != "ok":
+                return None
+            cols = columns(M)
+            nsim = len(cols) // nvar if nvar else 0
+            for a, per_var in enumerate(decl[1]):
+                t = a if op == "simtub_on" else GEOM["sx"][a] + GEOM["cgnx"] * GEOM["sy"][a]
+                for w, src in enumerate(per_var):
+                    if src == 0:
+                        continue
+                    zz = (Z1 if w == 0 else Z2)[src - 1]
+                    for isim in range(nsim):
+                        if cols[isim + nsim * w][t] != zz:
+                            return "target on datum %d holds %r in simulation %d of variable %d, expected %r" % (
+                                src, cols[isim + nsim * w][t], isim + 1, w + 1, zz)
             return None
         if op in ("cov", "cov_sym", "drift"):
             mats, _ = split_matrices(M)
@@ -374,7 +475,8 @@ def compact_case(v, cid):
     keys = ["", "c", "cf", "cv", "cfv", "s"]
     return {"id": cid, "n": v["n"], "nvar": v["nvar"], "hasF": v["hasF"], "hasV": v["hasV"], "sel": v["sel"],
             "c": v["c"], "z": v["z"], "f": v["f"], "v": v["v"], "feat": v["feat"],
-            "keep": {k: v["keep"][i] for i, k in enumerate(keys)}, "ops": v["ops"]}
+            "keep": {k: v["keep"][i] for i, k in enumerate(keys)},
+            "keepv": {k: v["keepv"][i] for i, k in enumerate(keys)}, "ops": v["ops"]}
 
 
 def run_layout(ck, tier, name, maxn, exe, workers, tlc_workers, totals):
@@ -416,7 +518,7 @@ def run_layout(ck, tier, name, maxn, exe, workers, tlc_workers, totals):
         byid = {}
         with open(inp, "w") as f:
             for c, olist in batch:
-                hc = {k: c[k] for k in ("id", "n", "nvar", "hasF", "hasV", "sel", "c", "z", "f", "v", "keep")}
+                hc = {k: c[k] for k in ("id", "n", "nvar", "hasF", "hasV", "sel", "c", "z", "f", "v", "keep", "keepv")}
                 hc["run"] = [[o["op"], o["nk"]] for o in olist]
                 f.write(json.dumps(hc, separators=(",", ":")) + "\n")
                 byid[c["id"]] = c
@@ -514,6 +616,7 @@ def run(tier):
                             '  FDom = {TRUE}\n  VDom = {TRUE}\n  HasF = FALSE\n  HasV = FALSE\n')
     aux = vlib.tlc_emit_json("EmitUsableAux", auxcfg, os.path.join(ck.work, "aux.json"))
     geom = dict(aux["geom"], seed=vlib.seed())
+    GEOM.update(aux["geom"])
     json.dump(geom, open(os.path.join(ck.work, "config.json"), "w"))
     totals = {"states": 0, "transitions": 0, "cases": 0, "runs": 0,
               "cmp": collections.Counter(), "feat": collections.Counter(), "dev": collections.Counter()}
